@@ -58,6 +58,8 @@ type opDef struct {
 }
 
 type sys struct {
+	t1     bool   // the driven thread has id 1 of 2 (names under /localhost belong to thread 0)
+	nameA  string // the ordinary name of the alphabet ("/a", or one that hashes to the driven thread)
 	cfg    fwsim.Config
 	names  []string
 	defs   map[string]opDef
@@ -107,8 +109,22 @@ func build(cfgName string) explore.System {
 	if _, err := fmt.Sscanf(cfgName, "leaky %s %s %s", &st, &cs, &fib); err != nil {
 		report.Fatal("bad config name %q", cfgName)
 	}
-	s := &sys{defs: map[string]opDef{}}
+	s := &sys{defs: map[string]opDef{}, nameA: "/a"}
+	link := false
+	for _, x := range strings.Fields(cfgName)[4:] {
+		switch x {
+		case "link":
+			link = true // arrivals go through a real NDNLPLinkService (fwsim.Config.RealLinkService)
+		case "t1":
+			s.t1 = true
+			s.nameA = fwsim.New(fwsim.Config{ThreadID: 1}).NameForThread("a")
+		default:
+			report.Fatal("bad config name %q", cfgName)
+		}
+	}
+	A := s.nameA
 	s.cfg = fwsim.Config{
+		RealLinkService: link,
 		Faces: []fwsim.FaceSpec{
 			{ID: fwsim.L1, Label: "L1", Scope: defn.Local, Link: defn.PointToPoint, CCF: true},
 			{ID: fwsim.N2, Label: "N2", Scope: defn.NonLocal, Link: defn.PointToPoint},
@@ -120,8 +136,11 @@ func build(cfgName string) explore.System {
 			{Prefix: "/localhost", Face: fwsim.N2, Cost: 1}, // misconfigured/hostile registration
 			{Prefix: "/localhost/nfd", Face: fwsim.L5, Cost: 0},
 			{Prefix: "/localhost/nfd", Face: fwsim.N2, Cost: 1},
-			{Prefix: "/a", Face: fwsim.N3, Cost: 1},
+			{Prefix: A, Face: fwsim.N3, Cost: 1},
 		},
+	}
+	if s.t1 {
+		s.cfg.ThreadID = 1
 	}
 	switch st {
 	case "br":
@@ -136,13 +155,13 @@ func build(cfgName string) explore.System {
 		s.cfg.FibAlgo, s.cfg.HashtableM = "hashtable", 2
 	}
 	// alphabet, simplest first
-	for _, n := range []string{"/localhost/x", probeName, "/a"} {
+	for _, n := range []string{"/localhost/x", probeName, A} {
 		for _, f := range []uint64{fwsim.L1, fwsim.N2} {
 			s.addI(iOp{face: f, name: n})
 		}
 	}
 	for _, tk := range []string{"none", "echo0"} {
-		for _, n := range []string{"/localhost/x", probeName, "/a"} {
+		for _, n := range []string{"/localhost/x", probeName, A} {
 			for _, f := range []uint64{fwsim.L5, fwsim.N2, fwsim.L1} {
 				s.addD(dOp{face: f, name: n, tok: tk})
 			}
@@ -150,7 +169,7 @@ func build(cfgName string) explore.System {
 	}
 	s.add("T(100ms)", opDef{t: &tOp{100 * time.Millisecond}})
 	s.add("T(5s)", opDef{t: &tOp{5 * time.Second}})
-	for _, n := range []string{"/localhost/x", probeName, "/a"} {
+	for _, n := range []string{"/localhost/x", probeName, A} {
 		for _, f := range []uint64{fwsim.L1, fwsim.N2} {
 			s.addI(iOp{face: f, name: n, cbp: true})
 		}
@@ -160,7 +179,7 @@ func build(cfgName string) explore.System {
 	// consumer-chosen next hop (only honoured on faces with local fields enabled: L1)
 	s.addI(iOp{face: fwsim.L1, name: "/localhost/x", nh: fwsim.N2})
 	s.addI(iOp{face: fwsim.L1, name: "/localhost/x", nh: fwsim.L5})
-	s.addI(iOp{face: fwsim.L1, name: "/a", nh: fwsim.N2})
+	s.addI(iOp{face: fwsim.L1, name: A, nh: fwsim.N2})
 	s.addI(iOp{face: fwsim.N2, name: "/localhost/x", nh: fwsim.L5}) // NextHopFaceId on a face without local fields
 	s.addD(dOp{face: fwsim.N2, name: "/localhost/x", tok: "echo1"})
 	s.addD(dOp{face: fwsim.L5, name: "/localhost/x", tok: "echo1"})
@@ -168,7 +187,7 @@ func build(cfgName string) explore.System {
 	// hint instead of the Interest name, which must not weaken the scope test on the name
 	s.addI(iOp{face: fwsim.L1, name: "/localhost/x", hint: "/a"})
 	s.addI(iOp{face: fwsim.L1, name: "/localhost/x", hint: "/a", nh: fwsim.N2})
-	s.addI(iOp{face: fwsim.L1, name: "/a", hint: "/localhost/h"})
+	s.addI(iOp{face: fwsim.L1, name: A, hint: "/localhost/h"})
 	return s
 }
 
@@ -220,7 +239,7 @@ func (in *inst) whiteBox() string {
 func (in *inst) noteTokens(sends []fwsim.Send) {
 	for _, sd := range sends {
 		if sd.Kind == fwsim.KInterest {
-			if th, t, ok := fwsim.IssuedToken(sd.PitToken); ok && th == 0 {
+			if th, t, ok := fwsim.IssuedToken(sd.PitToken); ok && int(th) == in.sim.ThreadID() {
 				in.issued[t] = true
 			}
 		}
@@ -281,9 +300,9 @@ func (s *sys) step(in *inst, op explore.Op) (v []report.Violation) {
 		var lp fwsim.LP
 		switch o.tok {
 		case "echo0":
-			lp.PitToken = fwsim.MakeToken(0, in.live[0])
+			lp.PitToken = in.sim.Token(in.live[0])
 		case "echo1":
-			lp.PitToken = fwsim.MakeToken(0, in.live[1])
+			lp.PitToken = in.sim.Token(in.live[1])
 		}
 		rejected := nonLocal(o.face) && isLocalhostStr(o.name)
 		before := ""
@@ -330,6 +349,9 @@ func (s *sys) Do(i any, op explore.Op)                       { s.step(i.(*inst),
 
 // CheckState is C09.local, run in every explored state (destroys the instance).
 func (s *sys) CheckState(i any) (v []report.Violation) {
+	if s.t1 {
+		return nil // Interests under /localhost are dispatched to thread 0, which is not the driven one
+	}
 	in := i.(*inst)
 	bad := func(key, detail string) {
 		v = append(v, report.Violation{Clause: "C09.local", Key: key, Detail: detail})
@@ -437,6 +459,9 @@ func configs(th bool) []explore.Config {
 	}
 	if !th {
 		// cheaper configurations first: what they leave of their share goes to the deeper ones
+		add("br", "cs1", "tree link", 4)  // arrivals through the real NDNLPLinkService
+		add("mc", "cs1", "tree t1", 5)    // the driven thread is thread 1 of 2
+		add("br", "cs1", "ht link t1", 4) // both
 		add("br", "cs0", "ht", 5)
 		add("mc", "cs0", "ht", 5)
 		add("mc", "cs1", "tree", 6)
@@ -449,6 +474,9 @@ func configs(th bool) []explore.Config {
 				add(st, cs, fib, 7)
 			}
 		}
+		add("br", "cs1", fib+" link", 6)
+		add("mc", "cs1", fib+" t1", 6)
+		add("mc", "cs0", fib+" link t1", 6)
 	}
 	return c
 }
